@@ -5,12 +5,15 @@ import itertools
 from sqlite_dissect import interface
 from sqlite_dissect.file.database.database import Database
 
+from ..translate import callsites
 from ..gen import histories as H, sqlite_factory as F
 from ..impl import dump as D
 from . import dbcommon as C
 
 ID = "C13"
-LEAN_MODULES = ["SqliteDissect.Properties.C13", "SqliteDissect.Properties.C06"]
+LEAN_MODULES = ["SqliteDissect.Properties.C13", "SqliteDissect.Properties.C06", "SqliteDissect.Properties.C13Calls"]
+TRANSLATORS = [callsites]
+TRUSTED_EXTRA = [callsites.TRUSTED]
 RULE = ("every combination of store_in_memory x strict_format_checking x identifier kind (path / file object) x "
         "explicit file size x entry point (class / interface helper) on factory databases and WAL histories; the "
         "normalised dumps are compared pairwise and with the Lean model under the same configuration, and each "
